@@ -4,6 +4,7 @@ package interp
 // One worker process explores one path at a time; P is that path.
 
 import (
+	"runtime/debug"
 	"fmt"
 	"go/token"
 	"go/types"
@@ -46,7 +47,13 @@ type rtPanic struct {
 	msg string
 }
 
-func (p rtPanic) Error() string { return "runtime error: " + p.msg }
+func (p rtPanic) Error() string {
+	switch p.msg {
+	case "assignment to entry in nil map", "close of closed channel", "close of nil channel", "send on closed channel":
+		return p.msg // runtime.plainError: no "runtime error: " prefix
+	}
+	return "runtime error: " + p.msg
+}
 
 type Violation struct {
 	Harness   string            `json:"harness"`
@@ -1297,6 +1304,9 @@ func RunPath(job *Job) (res PathResult) {
 				p.addViolation("panic", p.panicSite(), detail, m, ok)
 			default:
 				status, detail = "engine-error", fmt.Sprintf("%v at %s", r, p.site())
+				if debugSites {
+					detail += " stack: " + strings.ReplaceAll(string(debug.Stack()), "\n", " | ")
+				}
 				if os.Getenv("GOSYM_DEBUG") != "" {
 					panic(r)
 				}
